@@ -9671,9 +9671,19 @@ func (l *Lowerer) lowerMemberForRef(mem *parser.MemberExpr, target *[]ir.Stateme
 		}), nil
 	}
 
-	// For multi-component swizzle (.xy, .xyz, etc.), fall through to regular lowering.
-	// This WILL re-lower the base expression (creating duplicate expressions), but
-	// multi-component swizzles are rare in store targets.
+	// Multi-component swizzle (.xy, .xyz, etc.) is a value: build it on the base
+	// lowered above. Re-lowering mem.Expr here would evaluate it a second time,
+	// which duplicates a function call in f().xyz.xy.
+	if vecOk {
+		loadedBase := l.applyLoadRule(base)
+		size, pattern, err := l.swizzlePattern(mem.Member, vec.Size)
+		if err != nil {
+			return 0, err
+		}
+		return l.addExpression(ir.Expression{
+			Kind: ir.ExprSwizzle{Size: size, Vector: loadedBase, Pattern: pattern},
+		}), nil
+	}
 	return l.lowerMember(mem, target)
 }
 
